@@ -41,7 +41,7 @@ RecursionKey = Tuple[AnyType, Optional[AnyConversion]]
 class RecursiveChecker(ConversionsVisitor[Conv, Any], ObjectVisitor[Any]):
     def __init__(self, default_conversion: DefaultConversion):
         super().__init__(default_conversion)
-        self._cache = recursion_cache(self.__class__)
+        self._cache = recursion_cache(self.__class__, default_conversion)
         # Tarjan's strongly connected components algorithm: a type is recursive
         # if it belongs to a cycle, i.e. to a component of several types or to a
         # component made of a single type referencing itself
@@ -140,7 +140,10 @@ class SerializationRecursiveChecker(
 
 
 @cache  # use @cache for reset
-def recursion_cache(checker_cls: Type[RecursiveChecker]) -> Dict[RecursionKey, bool]:
+def recursion_cache(
+    checker_cls: Type[RecursiveChecker], default_conversion: DefaultConversion
+) -> Dict[RecursionKey, bool]:
+    # the types reached from a type depend on the default conversion
     return {}
 
 
@@ -157,7 +160,8 @@ def is_recursive(
     checker_cls: Type[RecursiveChecker],
 ) -> bool:
     with _recursion_lock:
-        cache, rec_key = recursion_cache(checker_cls), (tp, conversion)
+        cache = recursion_cache(checker_cls, default_conversion)
+        rec_key = (tp, conversion)
         if rec_key not in cache:
             checker_cls(default_conversion).visit_with_conv(tp, conversion)
         return cache[rec_key]
